@@ -2,7 +2,9 @@ package main
 
 import (
 	"fmt"
+	"go/ast"
 	"go/token"
+	"go/types"
 
 	"golang.org/x/tools/go/ssa"
 )
@@ -12,7 +14,7 @@ func init() {
 		ID:        "C08",
 		Roots:     []string{"overlord/state", "daemon"},
 		Technique: "who-may-write of the notice ordering fields; guarded-sink / ordering reachability on State.AddNotice, NoticeFilter.matches, State.WaitNotices, daemon.getNotices/getNotice and noticeViewableByUser",
-		Explanation: "Structural necessary conditions for 'notices are delivered exactly once, in order, only to their owner': (R1) Notice.lastRepeated and State.lastNoticeTimestamp are written only by AddNotice and by unmarshalling; (R2) in AddNotice the timestamp taken from the clock is either strictly after the last one or replaced by last+1ns, and every path that inserts a notice or moves lastRepeated broadcasts on the condition variable; (R3) NoticeFilter.matches answers true only across the user, type, key and strictly-after tests, and Notices sorts by lastRepeated with Before on the two indexed elements; (R4) daemon.getNotices filters by the requester's own uid unless it was reassigned under requestUID==0, never touches the state when the uid is unknown, and getNotice returns the notice only across noticeViewableByUser (public | root | same uid); (R5) WaitNotices checks ctx.Err() and re-evaluates the filter after every wake-up, and the cancel hook broadcasts under the condition's lock.",
+		Explanation: "Structural necessary conditions for 'notices are delivered exactly once, in order, only to their owner': (R1) Notice.lastRepeated and State.lastNoticeTimestamp are written only by AddNotice and by unmarshalling; (R2) in AddNotice the timestamp taken from the clock is either strictly after the last one or replaced by last+1ns, and every path that inserts a notice or moves lastRepeated broadcasts on the condition variable; (R3) NoticeFilter.matches answers true only across the user, type, key and strictly-after tests, and Notices sorts by lastRepeated with Before on the two indexed elements; (R4) daemon.getNotices filters by the requester's own uid unless it was reassigned under requestUID==0, never touches the state when the uid is unknown, and getNotice returns the notice only across noticeViewableByUser (public | root | same uid); (R5) WaitNotices checks ctx.Err() and re-evaluates the filter after every wake-up, and the cancel hook broadcasts under the condition's lock; (R6) an additional occurrence moves lastRepeated only across the repeat-after window given with THAT occurrence (options.RepeatAfter zero or elapsed since lastRepeated), and every noticeKey literal sets all identifying fields, so notices of different owners never share a map entry.",
 		NotDecided: "exactly-once over histories; same-tick additions across a reload; repeat-after arithmetic; client-side use of the `after` cursor.",
 		Run:        runC08,
 	})
@@ -109,6 +111,63 @@ func runC08(c *Ctx) {
 	}
 	if nb < 2 {
 		c.Undecided("overlord/state.(*State).AddNotice#broadcast-triggers", add.Pos(), "insert / lastRepeated update sites not found")
+	}
+
+	c.Rule("C08-R6", "G+F", "AddNotice: an additional occurrence moves lastRepeated only across options.RepeatAfter==0 | now.After(lastRepeated.Add(options.RepeatAfter)) - the window of THIS occurrence; every noticeKey literal sets all identifying fields (user presence, user id, type, key)", 2)
+	fOptRepeat := P.Field("overlord/state.AddNoticeOptions.RepeatAfter")
+	optRepeat := VField(fOptRepeat)
+	repeatZero := Cmp("options.RepeatAfter==0", optRepeat, token.EQL, VConstInt(0))
+	elapsed := TrueRes("now.After(lastRepeated.Add(options.RepeatAfter))", true, 0,
+		CallWhere(ToFn(after), 1, VRes(0, CallWhere(CallWhere(ToFn(timeAdd), 0, VField(fLastRep)), 1, optRepeat))))
+	nrep := 0
+	for _, st := range StoresToField(add, fLastRep) {
+		fa := st.Addr.(*ssa.FieldAddr)
+		if _, fresh := fa.X.(*ssa.Alloc); fresh {
+			continue // the composite literal of a first occurrence
+		}
+		nrep++
+		c.Guarded(fmt.Sprintf("overlord/state.(*State).AddNotice#repeat-window#%d", nrep), add, st, []Clause{{repeatZero, elapsed}}, nil)
+	}
+	if nrep == 0 {
+		c.Undecided("overlord/state.(*State).AddNotice#repeat-window", add.Pos(), "no lastRepeated update of an existing notice found")
+	}
+	keyT := P.NamedType("overlord/state.noticeKey")
+	keyS := keyT.Underlying().(*types.Struct)
+	nk := 0
+	spkg := P.Pkgs["overlord/state"]
+	for _, file := range spkg.Syntax {
+		ast.Inspect(file, func(n ast.Node) bool {
+			cl, ok := n.(*ast.CompositeLit)
+			if !ok {
+				return true
+			}
+			tv, ok := spkg.TypesInfo.Types[cl]
+			if !ok || !types.Identical(tv.Type, keyT) {
+				return true
+			}
+			nk++
+			set := map[string]bool{}
+			for i, el := range cl.Elts {
+				if kv, ok := el.(*ast.KeyValueExpr); ok {
+					if id, ok := kv.Key.(*ast.Ident); ok {
+						set[id.Name] = true
+					}
+				} else if i < keyS.NumFields() {
+					set[keyS.Field(i).Name()] = true
+				}
+			}
+			var missing []string
+			for i := 0; i < keyS.NumFields(); i++ {
+				if !set[keyS.Field(i).Name()] {
+					missing = append(missing, keyS.Field(i).Name())
+				}
+			}
+			c.Check(len(missing) == 0, fmt.Sprintf("overlord/state#noticeKey-literal#%d", nk), cl.Pos(), "all identifying fields set", fmt.Sprintf("noticeKey literal leaves %v unset: notices of different owners/types/keys collapse into one map entry (a private notice can be folded into a public one and delivered to everybody, or the reverse)", missing))
+			return true
+		})
+	}
+	if nk < 1 {
+		c.Undecided("overlord/state#noticeKey-literals", add.Pos(), fmt.Sprintf("expected at least one noticeKey literal, found %d", nk))
 	}
 
 	c.Rule("C08-R3", "G", "NoticeFilter.matches: true <= user ∧ type ∧ key ∧ strictly-after tests; Notices sorts by lastRepeated.Before", 3)
